@@ -106,8 +106,14 @@ func (a ammW) ExitPool(ctx sdk.Context, sender sdk.AccAddress, poolId uint64, sh
 	if err := a.Keeper.RecordTotalLiquidityDecrease(ctx, coins); err != nil {
 		return sdk.Coins{}, err
 	}
+	if exitObserver != nil {
+		exitObserver(ctx)
+	}
 	return coins, nil
 }
+
+// exitObserver (ghost): called after every exit the leveragelp keeper performs, with the context the exit ran in
+var exitObserver func(ctx sdk.Context)
 
 func (a ammW) ExitPoolEst(ctx sdk.Context, poolId uint64, shareIn sdkmath.Int, outDenom string) (sdk.Coins, sdkmath.LegacyDec, error) {
 	return sdk.Coins{sdk.NewCoin(outDenom, a.est)}, sdkmath.LegacyZeroDec(), nil
@@ -388,7 +394,7 @@ func setupTwo() (*state, sdkmath.Int, sdkmath.Int) {
 	vrf.Assume(coll2.IsPositive())
 	p := levtypes.NewPosition(owner2.String(), sdk.NewCoin(usdc, coll2), 1)
 	p.Id = 2
-	p.LeveragedLpAmount, p.Liabilities, p.StopLossPrice = lp2, debt2, sdkmath.LegacyZeroDec()
+	p.LeveragedLpAmount, p.Liabilities, p.StopLossPrice = lp2, debt2, stopLoss2
 	env.Lev.SetPosition(ctx, p)
 	env.Lev.SetPositionCount(ctx, 2)
 	c := env.Comm.GetCommitments(ctx, p.GetPositionAddress())
@@ -480,6 +486,67 @@ func H_Open_Consolidate() {
 	vrf.Assert(env.Lev.GetPositionCount(ctx) == 1, "C08 consolidate: no new position id is allocated")
 	vrf.Assert(env.W.BalOf(owner, usdc).Equal(s.wallet.Sub(coll)), "C08 consolidate: the owner pays exactly the collateral")
 	s.check("open-consolidate", 1)
+}
+
+// stopLoss2: stop-loss price of the second explicit position (0 = not set unless a harness makes it symbolic before setupTwo)
+var stopLoss2 = sdkmath.LegacyZeroDec()
+
+// the begin-blocker sweep over two positions of one pool, seen from C10: a position that the sweep closes although
+// it is healthy must have a stop-loss price set, and the market LP price (accounted TVL per share) must have been at
+// or below it at some moment of the sweep - before it, or after an earlier exit of the same sweep changed the pool.
+//
+//vrf:cover done closed-at-stop-loss
+//vrf:bound 2 explicit positions of one pool with symbolic stop-loss prices + symbolic remainder; one pass of the begin-blocker; exit amounts havocked (the LP price after an exit is arbitrary); share supply <= 1e40
+//vrf:max-paths 6000
+func H_BeginBlocker_TwoPositions_StopLossGate() {
+	stopLoss2 = vrf.Dec("stopLossPrice2")
+	vrf.Assume(!stopLoss2.IsNegative())
+	s, lp2, debt2 := setupTwo()
+	env, ctx := s.env, s.env.Ctx
+	vrf.Assume(s.T.LTE(sdkmath.NewIntWithDecimal(1, 40)))
+	price := func(c sdk.Context) (sdkmath.LegacyDec, bool) {
+		ap, _ := env.Amm.GetPool(c, 1)
+		m, err := ap.LpTokenPrice(c, env.Oracle, env.Acc)
+		return m, err == nil
+	}
+	p0, ok0 := price(ctx)
+	vrf.Assume(ok0)
+	seen := []sdkmath.LegacyDec{}
+	exitObserver = func(c sdk.Context) {
+		if m, ok := price(c); ok {
+			seen = append(seen, m)
+		}
+	}
+	env.Lev.BeginBlocker(ctx)
+	exitObserver = nil
+	vrf.Cover("done")
+	sf := levtypes.DefaultParams().SafetyFactor
+	type pos struct {
+		id       uint64
+		who      sdk.AccAddress
+		lp, debt sdkmath.Int
+		sl       sdkmath.LegacyDec
+		wallet   sdkmath.Int
+	}
+	for _, q := range []pos{{1, owner, s.posLp, s.debt, s.stopLoss, s.wallet}, {2, owner2, lp2, debt2, stopLoss2, sdkmath.ZeroInt()}} {
+		cm := env.Comm.GetCommitments(ctx, levtypes.GetPositionAddress(q.id))
+		touched := !cm.GetCommittedAmountForDenom(share).Equal(q.lp) || !env.W.BalOf(q.who, usdc).Equal(q.wallet)
+		healthy := s.est.ToLegacyDec().Quo(q.debt.ToLegacyDec()).GT(sf)
+		if !touched || !healthy {
+			continue
+		}
+		vrf.Cover("closed-at-stop-loss")
+		vrf.Assert(!q.sl.IsZero(), "C10 sweep: a healthy position without a stop-loss price is not closed by the chain's sweep")
+		// the lowest market price the sweep can have seen for this position: before the sweep, or after an earlier exit
+		// (the last recorded price is the one after this position's own exit)
+		low := p0
+		for i := 0; i+1 < len(seen); i++ {
+			if seen[i].LT(low) {
+				low = seen[i]
+			}
+		}
+		vrf.Assert(low.LTE(q.sl), "C10 sweep: a healthy position is closed by the chain's sweep only when the market LP price (accounted TVL over the current share supply) has reached its stop-loss price")
+	}
 }
 
 // SetupTwoPositions exposes the two-position state to other harness packages (C18).
